@@ -187,6 +187,15 @@ func rangeTokens(eco string) []string {
 	return out
 }
 
+// splitLast: prefix (concrete) + the pieces of the raw part split on its first position.
+func splitLast(cond bool, prefix, raw string, parts int) []string {
+	var out []string
+	for _, r := range splitIf(cond, raw, parts) {
+		out = append(out, prefix+r)
+	}
+	return out
+}
+
 func splitIf(cond bool, t string, parts int) []string {
 	if !cond {
 		return []string{t}
@@ -218,6 +227,23 @@ func init() {
 					}
 					for k, t := range splitIf(n >= 6, rawTemplate(syntaxClass, n), 9) {
 						out = append(out, &Config{ID: fmt.Sprintf("C06/V/%s/syntax%d/%d", eco, n, k), Pkg: zzhPkg, Func: "C06V", NoPanic: true, ScalarMergeOnly: true, Args: []ArgSpec{ArgStr(eco), ArgTmpl(t)}})
+					}
+				}
+				// a well-formed core followed by a raw tail (every ASCII tail of <= 3 bytes, tails of 4 over
+				// the syntax alphabet) and preceded by a raw head of <= 2 bytes: the qualifier, suffix and
+				// prefix code paths start only after a valid beginning ("2.4.41-v1")
+				if ms := mustTemplates(eco); len(ms) > 0 {
+					core := concretize(ms[len(ms)-1], "1")
+					for n := 1; n <= 3; n++ {
+						for k, t := range splitLast(n >= 3, core, rawTemplate("A", n), 8) {
+							out = append(out, &Config{ID: fmt.Sprintf("C06/V/%s/tail%d/%d", eco, n, k), Pkg: zzhPkg, Func: "C06V", NoPanic: true, ScalarMergeOnly: true, Args: []ArgSpec{ArgStr(eco), ArgTmpl(t)}})
+						}
+					}
+					for k, t := range splitLast(true, core, rawTemplate(syntaxClass, 4), 9) {
+						out = append(out, &Config{ID: fmt.Sprintf("C06/V/%s/tail4/%d", eco, k), Pkg: zzhPkg, Func: "C06V", NoPanic: true, ScalarMergeOnly: true, Args: []ArgSpec{ArgStr(eco), ArgTmpl(t)}})
+					}
+					for n := 1; n <= 2; n++ {
+						out = append(out, &Config{ID: fmt.Sprintf("C06/V/%s/head%d", eco, n), Pkg: zzhPkg, Func: "C06V", NoPanic: true, ScalarMergeOnly: true, Args: []ArgSpec{ArgStr(eco), ArgTmpl(rawTemplate("A", n) + core)}})
 					}
 				}
 				// bytes >= 0x80: every byte that is not the lead of a 3- or 4-byte sequence (symbolic), a
@@ -329,7 +355,7 @@ func init() {
 			return out
 		},
 		Bounds: func(tier string) string {
-			return "vers.Contains with raw ASCII tails <= 4/5 bytes after 5 scheme prefixes, raw heads <= 6/7, raw versions <= 3, tails <= 8/9 over a 19-symbol VERS alphabet; CLI argument vectors of 0-5 arguments with raw ASCII names, commands and arguments (2-3 bytes); all ASCII strings of length <= 5 (quick) / 7 (thorough) for version parsers and <= 4 / 5 for range parsers, plus strings up to 7 / 9 (versions; thorough: gem 7, maven 8) and 6 / 7 (ranges; thorough: gem and cargo 6) over a 25-symbol syntax alphabet; probes for Contains from 2 grammar templates; per entry point 8 templates with bytes >= 0x80 (all one- and two-byte strings without leads of 3-/4-byte sequences, symbolic two-byte runes inside versions, concrete 3- and 4-byte runes); range parsers also with every sequence of <= 3 tokens (comparators, a shorthand operator, separators incl. word separators, a version), glued and space-joined; symbolic 3-/4-byte sequences, the quadratic time bound and long inputs are outside the claim"
+			return "vers.Contains with raw ASCII tails <= 4/5 bytes after 5 scheme prefixes, raw heads <= 6/7, raw versions <= 3, tails <= 8/9 over a 19-symbol VERS alphabet; CLI argument vectors of 0-5 arguments with raw ASCII names, commands and arguments (2-3 bytes); all ASCII strings of length <= 5 (quick) / 7 (thorough) for version parsers and <= 4 / 5 for range parsers, plus strings up to 7 / 9 (versions; thorough: gem 7, maven 8) and 6 / 7 (ranges; thorough: gem and cargo 6) over a 25-symbol syntax alphabet; probes for Contains from 2 grammar templates; per entry point 8 templates with bytes >= 0x80 (all one- and two-byte strings without leads of 3-/4-byte sequences, symbolic two-byte runes inside versions, concrete 3- and 4-byte runes); version parsers also with a well-formed core followed by every ASCII tail of <= 3 bytes (4 over the syntax alphabet) or preceded by every ASCII head of <= 2 bytes; range parsers also with every sequence of <= 3 tokens (comparators, a shorthand operator, separators incl. word separators, a version), glued and space-joined; symbolic 3-/4-byte sequences, the quadratic time bound and long inputs are outside the claim"
 		},
 		MaxPaths: 3000000,
 	})
